@@ -65,9 +65,27 @@ def oracle(c):
         if fails:
             return fails
     # (2) three styles agree at every instruction boundary
-    a, b, s = _setup(c), _setup(c), _setup(c)
+    # a, b, s: whole steps / explicit halves / single-cycle steps; bq, sq: the last two as the web GUI drives them — every view
+    # is read after EVERY call, also between the two halves of an instruction
+    a, b, s, bq, sq = _setup(c), _setup(c), _setup(c), _setup(c), _setup(c)
     if a.toy.next_cycle != 1:
         return fails
+    look = lambda x: (x.toy.get_register_representations(), x.toy.get_memory_table_entries(), x.toy.get_toy_svg_update_values(), str(x.toy.state.performance_metrics.cycles))
+    for k in range(40):
+        a.run("toy.call step")
+        b.run("toy.call first"); b.run("toy.call second")
+        s.run("toy.call single"); s.run("toy.call single")
+        bq.run("toy.call first"); look(bq); bq.run("toy.call second")
+        sq.run("toy.call single"); look(sq); sq.run("toy.call single")
+        snaps = [x.run("toy.snap") for x in (a, b, s, bq, sq)]
+        views = [look(x) for x in (a, b, s, bq, sq)]
+        if any(x != snaps[0] for x in snaps) or any(v != views[0] for v in views):
+            j = next(i for i in range(5) if snaps[i] != snaps[0] or views[i] != views[0])
+            fails.append(Failure("oracle", PROP, f"after {k + 1} instructions the stepping style `{['step', 'first+second', 'single+single', 'first, views, second', 'single, views, single'][j]}` differs from whole steps (state, counters, table markers or visualisation values)", "toy:styles-differ"))
+            break
+        if a.toy.is_done():
+            break
+    return fails
     for k in range(40):
         a.run("toy.call step")
         b.run("toy.call first"); b.run("toy.call second")
